@@ -58,6 +58,7 @@ ObsOK(ev) ==
           IF abuf'.size < 0 THEN o.abuf = [rc |-> "NC_ENULLABUF"]
           ELSE o.abuf.size = abuf'.size /\ o.abuf.usage = abuf'.used)
     /\ ("disk" \in DOMAIN o) =>
+          /\ Chk("disk.decodable", "error" \notin DOMAIN o.disk)
           /\ Chk("disk.wellformed", o.disk.exists = 1 /\ o.disk.problems = <<>>)
           /\ Chk("disk.numrecs", (~indep') => o.disk.numrecs = numrecs')      \* collective mode: the header is up to date
           /\ Chk("disk.data", \A v \in 0..(NV - 1) :
